@@ -78,6 +78,9 @@ def check(prog, ctx):
     ctx.rule('C06.f', 'Gamma = exp(GammaLn); GammaLn is the 14-term Lanczos form (g=671/128) with the published coefficients', 3)
     ctx.rule('C06.h', 'Inv_GammaP: one iteration is a Halley step x -= u/(1-min(1,u((a-1)/x-1))/2) with u=(P(x,a)-p)/P\'(x,a), and the '
              'iteration stops on a relative step |t| < EPS*x with EPS <= 1e-7', 2)
+    ctx.rule('C06.k', 'the starting value of the Inv_GammaP iteration (the term the iterate holds when the loop is entered, on the path selected by '
+             '(p, a)) is non-decreasing in p, as the quantile it approximates: evaluated for a in {0.3,1,1.5,5,30,100} and twelve p between 1e-9 and 1-1e-9 '
+             '(a mirrored normal-quantile convention or p/1-p mix-up starts the iteration on the wrong side of the median and the twelve steps do not recover in the tails)', 1)
     ctx.rule('C06.i', 'quadrature branch (a>100): the integrand t^(a-1)e^-t/Gamma(a) is only evaluated at t >= 0 - both integration limits handed '
              'to Find_Epsilon/Integrate are provably non-negative (lower limit max(0, .) or 0; upper limit x >= 0 by GammaQ\'s guard)', 1)
     ctx.rule('C06.j', 'the gamma family is stateless: in the closure of GammaP/GammaQ/Inv_GammaP/Gamma/GammaLn no persistent local can be read '
@@ -625,6 +628,45 @@ def halley(prog, ctx):
         got = 'under [%s]: %s' % (' & '.join(str(c_) for c_ in badp_[0][0].conds[n0:])[:120], badp_[0][1])
     ctx.decide(R, 'Inv_GammaP:halley-step', fn, okstep, 'x -= u/(1-min(1,u((a-1)/x-1))/2), u=(P(x,a)-p)/(x^(a-1)e^-x/Gamma(a))',
                'iteration step is not the Halley step: %s' % str(got)[:300], line=loop['l'], form=str(got)[:400])
+
+
+    # ---- C06.k the starting value of the iteration, as a function of p
+    RK = 'C06.k'
+    grid_a = [0.3, 1.0, 1.5, 5.0, 30.0, 100.0]
+    grid_p = [1e-9, 1e-6, 1e-3, 0.1, 0.3, 0.49, 0.51, 0.7, 0.9, 0.999, 1 - 1e-6, 1 - 1e-9]
+    bad, ncase = [], 0
+    for av in grid_a:
+        row = []
+        for pv in grid_p:
+            sub = {p: sp.Float(pv), a: sp.Float(av)}
+            hit = []
+            for st_ in states:
+                vals = [c_.xreplace(sub) if isinstance(c_, sp.Basic) else c_ for c_ in st_.conds]
+                try:
+                    vals = [bool(sp.simplify(v_)) if isinstance(v_, sp.Basic) else bool(v_) for v_ in vals]
+                except TypeError:
+                    raise Undecided('a path condition before the iteration does not evaluate for given (p, a)')
+                if all(vals):
+                    hit.append(st_)
+            if len(hit) != 1:
+                raise Undecided('%d paths reach the iteration for p=%s, a=%s' % (len(hit), pv, av))
+            x0 = hit[0].env.get(iterate_id)
+            if not isinstance(x0, sp.Basic):
+                raise Undecided('starting value is not a term')
+            x0v = x0.xreplace(sub)
+            try:
+                x0v = float(sp.N(x0v))
+            except (TypeError, ValueError):
+                raise Undecided('starting value %s does not evaluate' % str(x0v)[:80])
+            row.append(x0v)
+            ncase += 1
+        for (p1, v1), (p2, v2) in zip(zip(grid_p, row), list(zip(grid_p, row))[1:]):
+            if v2 < v1 * (1 - 1e-12) - 1e-300:
+                bad.append({'a': av, 'p': [p1, p2], 'start': [v1, v2]})
+    ctx.decide(RK, 'Inv_GammaP:start', fn, not bad, 'the starting value is non-decreasing in p for every a on the grid (%d cases)' % ncase,
+               'the starting value of the iteration decreases when p increases (the quantile it approximates increases): e.g. a=%s: start(p=%s)=%.4g > start(p=%s)=%.4g'
+               % ((bad[0]['a'], bad[0]['p'][0], bad[0]['start'][0], bad[0]['p'][1], bad[0]['start'][1]) if bad else (0, 0, 0, 0, 0)),
+               witness={'cases': bad[:4]} if bad else None)
 
 
 def quadrature_window(prog, ctx, gq):
